@@ -313,7 +313,7 @@ class Side:
     """Everything observed on one side of a differential run."""
 
     __slots__ = ("log", "out", "term", "exc", "srcs", "fns", "value", "params", "inputs_before",
-                 "inputs_after", "handle", "foreign", "suspensions")
+                 "inputs_after", "handle", "foreign", "suspensions", "objs", "final_out", "alias", "items_changed")
 
     def __init__(self) -> None:
         self.log: List[tuple] = []
@@ -329,6 +329,10 @@ class Side:
         self.handle: Any = None
         self.foreign: List[str] = []
         self.suspensions = 0
+        self.objs: Optional[List[Any]] = None  # yielded objects themselves (only when keep_objs is requested)
+        self.final_out: Any = None  # their canonical form after the run (later mutation shows here)
+        self.alias: Any = None  # identity pattern: index of the first yielded object that IS this one
+        self.items_changed = False  # an input element was modified
 
 
 def _params(spec: dict) -> dict:
@@ -412,12 +416,16 @@ def _iter_sentinel_fn(side: Side, spec: dict):
 
 
 def run_sync_side(spec: dict, fault: Optional[Fault] = None, steps: Optional[int] = None,
-                  log: bool = True, ops: Optional[List[int]] = None, gen_twin: bool = False) -> Side:
+                  log: bool = True, ops: Optional[List[int]] = None, gen_twin: bool = False,
+                  keep_objs: bool = False) -> Side:
     """Run the stdlib twin on synchronous probes."""
     side = Side()
     CTX.reset()
     tool = TOOLS[spec["tool"]]
     _mk_states(spec, fault, 0, log, side)
+    if keep_objs:
+        side.objs = []
+    elems_before = [canon(st.items) for st in side.srcs] if keep_objs else None
     P = side.params = _params(spec)
     if spec["tool"] == "iter_sentinel":
         side.fns[0].impl = _iter_sentinel_fn(side, spec)  # type: ignore[union-attr]
@@ -485,11 +493,25 @@ def run_sync_side(spec: dict, fault: Optional[Fault] = None, steps: Optional[int
                         side.term = _term_of(exc, fault)
                         break
                     side.out.append(canon(item))
+                    if side.objs is not None:
+                        side.objs.append(item)
                     CTX.ev("yield", canon(item))
                 CTX.ev(*side.term)
     finally:
         side.log = CTX.log
+    _finish_objs(side, elems_before)
     return side
+
+
+def _finish_objs(side: "Side", elems_before: Any) -> None:
+    if side.objs is None:
+        return
+    side.final_out = [canon(o) for o in side.objs]
+    first: Dict[int, int] = {}
+    side.alias = [first.setdefault(id(o), n) for n, o in enumerate(side.objs) if isinstance(o, (list, dict, set, bytearray))]
+    if elems_before is not None:
+        side.items_changed = elems_before != [canon(st.items) for st in side.srcs if st.sid != "outer"][:len(elems_before)]
+    side.objs = None
 
 
 def _snapshot(P: dict) -> Any:
@@ -501,12 +523,15 @@ def run_async_side(spec: dict, flavours: Optional[List[str]] = None, fn_flavours
                    log: bool = True, ops: Optional[List[int]] = None, cancel_at: Optional[int] = None,
                    cancel_exc: Optional[BaseException] = None, close_after: bool = False,
                    outer_flavour: str = "async_class", poke_at: Optional[int] = None,
-                   athrow: Optional[BaseException] = None) -> Side:
+                   athrow: Optional[BaseException] = None, keep_objs: bool = False) -> Side:
     """Run the asyncstdlib tool on probes of the requested flavours under the driver."""
     side = Side()
     CTX.reset()
     tool = TOOLS[spec["tool"]]
     _mk_states(spec, fault, susp, log, side, fn_susp)
+    if keep_objs:
+        side.objs = []
+    elems_before = [canon(st.items) for st in side.srcs] if keep_objs else None
     P = side.params = _params(spec)
     nsrc = len(spec["srcs"])
     flavours = flavours or ["async_class"] * nsrc
@@ -598,6 +623,8 @@ def run_async_side(spec: dict, flavours: Optional[List[str]] = None, fn_flavours
                         side.term = ("raise", type(exc).__name__, True)
                     break
                 side.out.append(canon(item))
+                if side.objs is not None:
+                    side.objs.append(item)
                 CTX.ev("yield", canon(item))
                 del item
             CTX.ev(*side.term)
@@ -630,6 +657,7 @@ def run_async_side(spec: dict, flavours: Optional[List[str]] = None, fn_flavours
     side.log = CTX.log
     side.foreign = builtins.list(CTX.foreign)
     side.suspensions = CTX.suspensions
+    _finish_objs(side, elems_before)
     if items_before is not None:
         items_after = [canon(st.items) for st in side.srcs if st.sid != "outer"]
         if items_after != items_before and not builtins.any(st.drop for st in side.srcs):
